@@ -121,3 +121,398 @@ Section Prefix.
   Qed.
 End Prefix.
 
+
+(* ---- loaders at rest -------------------------------------------------------- *)
+(* a loader from whose buffer nothing more can be extracted: what every
+   connection's loader is between two steps of the bus model *)
+Definition at_rest (l : loader) : Prop :=
+  l_corrupted l = false /\ l_msgs l = [] /\ forall g, queue_messages g l = l.
+
+Definition set_msgs (l : loader) (ms : list message) : loader :=
+  mkLoader (l_buf l) (l_corrupted l) (l_reason l) ms (l_fds l) (l_max l).
+
+(* once queue_messages has stopped, running it again changes nothing *)
+Lemma qm_fix : forall f l g, (length (l_buf l) < f)%nat -> queue_messages g (queue_messages f l) = queue_messages f l.
+Proof.
+  induction f as [|f IH]; intros l g Hf; [lia|].
+  rewrite (qm_S f l).
+  destruct (l_corrupted l) eqn:Hcor.
+  { destruct g; [reflexivity|]. rewrite qm_S, Hcor. reflexivity. }
+  destruct (nlen (l_buf l) <? DBUS_MINIMUM_HEADER_SIZE) eqn:Hshort.
+  { destruct g; [reflexivity|]. rewrite qm_S, Hcor, Hshort. reflexivity. }
+  destruct (have_message (l_max l) (l_buf l)) as [r|le fl hl bl c] eqn:Hh.
+  { destruct g; [reflexivity|]. rewrite qm_S. reflexivity. }
+  destruct c.
+  2:{ destruct g; [reflexivity|]. rewrite qm_S, Hcor, Hshort, Hh. reflexivity. }
+  destruct (load_message le fl hl bl (l_fds l) (l_buf l)) as [m|r] eqn:Hl.
+  2:{ destruct g; [reflexivity|]. rewrite qm_S. reflexivity. }
+  apply IH. cbn [l_buf]. rewrite skipn_length.
+  pose proof (have_ok_hl _ _ _ _ _ _ _ Hh). pose proof (have_ok_inv _ _ _ _ _ _ _ Hh) as [_ Hc]. unfold nlen in Hc. lia.
+Qed.
+
+(* the control flow of queue_messages does not look at the queue *)
+Lemma qm_msgs_indep : forall g l ms,
+  exists extra, l_msgs (queue_messages g l) = l_msgs l ++ extra /\
+                queue_messages g (set_msgs l ms) = set_msgs (queue_messages g l) (ms ++ extra).
+Proof.
+  induction g as [|g IH]; intros l ms.
+  - exists []. rewrite !app_nil_r. split; reflexivity.
+  - rewrite !qm_S. unfold set_msgs. cbn [l_corrupted l_buf l_max l_fds l_msgs l_reason].
+    destruct (l_corrupted l) eqn:Hcor; [exists []; rewrite !app_nil_r; split; [reflexivity | rewrite ?Hcor; reflexivity]|].
+    destruct (nlen (l_buf l) <? DBUS_MINIMUM_HEADER_SIZE); [exists []; rewrite !app_nil_r; split; [reflexivity | rewrite ?Hcor; reflexivity]|].
+    destruct (have_message (l_max l) (l_buf l)) as [r|le fl hl bl c]; [exists []; rewrite !app_nil_r; split; reflexivity|].
+    destruct c; [|exists []; rewrite !app_nil_r; split; [reflexivity | rewrite ?Hcor; reflexivity]].
+    destruct (load_message le fl hl bl (l_fds l) (l_buf l)) as [m|r]; [|exists []; rewrite !app_nil_r; split; reflexivity].
+    set (l1 := mkLoader (skipn (N.to_nat (hl + bl)) (l_buf l)) false V_VALID (l_msgs l ++ [m]) (l_fds l - m_nfds m) (l_max l)).
+    destruct (IH l1 (ms ++ [m])) as [extra [E1 E2]].
+    exists (m :: extra). split.
+    + rewrite E1. cbn [l1 l_msgs]. rewrite <- app_assoc. reflexivity.
+    + unfold set_msgs in E2. cbn [l1 l_corrupted l_buf l_max l_fds l_msgs l_reason] in E2. rewrite E2. rewrite <- app_assoc. reflexivity.
+Qed.
+
+Lemma feed_pop_at_rest l d : l_corrupted (feed l d 0) = false -> at_rest (set_msgs (feed l d 0) []).
+Proof.
+  intros Hc. split; [exact Hc|]. split; [reflexivity|]. intros g.
+  unfold feed in *. set (l1 := mkLoader _ _ _ _ _ _) in *. set (f := S (length (l_buf l1))) in *.
+  destruct (qm_msgs_indep g (queue_messages f l1) []) as [extra [E1 E2]].
+  rewrite (qm_fix f l1 g ltac:(unfold f; lia)) in E1, E2.
+  assert (extra = []). { rewrite <- (app_nil_r (l_msgs _)) in E1 at 1. apply app_inv_head in E1. auto. }
+  subst extra. exact E2.
+Qed.
+
+Lemma loader_new_at_rest mx : at_rest (mkLoader [] false V_VALID [] 0 mx).
+Proof. split; [reflexivity|]. split; [reflexivity|]. intros g. apply qm_empty_buf. reflexivity. Qed.
+
+(* ---- the valid prefix of a chunk ---------------------------------------------- *)
+(* the part of chunk [d] that belongs to messages completed by feeding it to [l] *)
+Definition valid_prefix (l : loader) (d : bytes) : bytes :=
+  let l1 := mkLoader (l_buf l ++ d) (l_corrupted l) (l_reason l) (l_msgs l) (l_fds l) (l_max l) in
+  firstn (eaten (S (length (l_buf l1))) l1 - length (l_buf l)) d.
+
+Lemma valid_prefix_is_prefix l d : exists rest, d = valid_prefix l d ++ rest.
+Proof. unfold valid_prefix. eexists. symmetry. apply firstn_skipn. Qed.
+
+(* nothing eaten: no message *)
+Lemma eaten_zero f l : eaten f l = 0%nat -> l_msgs (queue_messages f l) = l_msgs l /\ (l_corrupted l = false -> l_fds (queue_messages f l) = l_fds l).
+Proof.
+  destruct f; [intros _; split; reflexivity|]. unfold eaten. rewrite qm_S.
+  destruct (l_corrupted l); [split; reflexivity|].
+  destruct (nlen (l_buf l) <? DBUS_MINIMUM_HEADER_SIZE); [split; reflexivity|].
+  destruct (have_message (l_max l) (l_buf l)) as [r|le fl hl bl c] eqn:Hh; [split; reflexivity|].
+  destruct c; [|split; reflexivity].
+  destruct (load_message le fl hl bl (l_fds l) (l_buf l)) as [m|r]; [|split; reflexivity].
+  intros He. exfalso.
+  set (l1 := mkLoader _ _ _ _ _ _) in He. destruct (qm_buf_suffix f l1) as [p Hp].
+  pose proof (f_equal (@length _) Hp) as E. rewrite app_length in E. cbn [l1 l_buf] in E. rewrite skipn_length in E.
+  pose proof (have_ok_hl _ _ _ _ _ _ _ Hh). pose proof (have_ok_inv _ _ _ _ _ _ _ Hh) as [_ Hc]. symmetry in Hc. unfold nlen in Hc. lia.
+Qed.
+
+(* the first message eaten is the one announced by the fixed header *)
+Lemma eaten_first f l : (0 < eaten (S f) l)%nat ->
+  l_corrupted l = false /\ (16 <= length (l_buf l))%nat /\
+  exists le fl hl bl m, have_message (l_max l) (l_buf l) = HaveOk le fl hl bl true /\
+                        load_message le fl hl bl (l_fds l) (l_buf l) = inl m /\ (N.to_nat (hl + bl) <= eaten (S f) l)%nat.
+Proof.
+  unfold eaten. rewrite qm_S.
+  destruct (l_corrupted l); [lia|].
+  destruct (nlen (l_buf l) <? DBUS_MINIMUM_HEADER_SIZE) eqn:Hs; [lia|].
+  destruct (have_message (l_max l) (l_buf l)) as [r|le fl hl bl c] eqn:Hh; [cbn [l_buf]; lia|].
+  destruct c; [|lia].
+  destruct (load_message le fl hl bl (l_fds l) (l_buf l)) as [m|r] eqn:Hl; [|cbn [l_buf]; lia].
+  intros _. split; [reflexivity|]. split; [unfold nlen in Hs; change DBUS_MINIMUM_HEADER_SIZE with 16 in Hs; lia|].
+  exists le, fl, hl, bl, m. split; [reflexivity|]. split; [exact Hl|].
+  set (l1 := mkLoader _ _ _ _ _ _). destruct (qm_buf_suffix f l1) as [p Hp].
+  pose proof (f_equal (@length _) Hp) as E. rewrite app_length in E. cbn [l1 l_buf] in E. rewrite skipn_length in E.
+  pose proof (have_ok_inv _ _ _ _ _ _ _ Hh) as [_ Hc]. symmetry in Hc. unfold nlen in Hc. lia.
+Qed.
+
+Lemma loader_eta l : mkLoader (l_buf l) (l_corrupted l) (l_reason l) (l_msgs l) (l_fds l) (l_max l) = l.
+Proof. destruct l. reflexivity. Qed.
+
+(* from a loader at rest, bytes are eaten either not at all or beyond the old buffer *)
+Lemma at_rest_eaten l d :
+  at_rest l ->
+  let l1 := mkLoader (l_buf l ++ d) (l_corrupted l) (l_reason l) (l_msgs l) (l_fds l) (l_max l) in
+  let e := eaten (S (length (l_buf l1))) l1 in
+  e = 0%nat \/ (length (l_buf l) <= e)%nat.
+Proof.
+  intros (Hcor & Hm & Hrest) l1 e.
+  destruct (Nat.eq_dec e 0) as [|Hne]; [left; assumption|right].
+  destruct (eaten_first (length (l_buf l1)) l1 ltac:(fold e; lia)) as (_ & H16 & le & fl & hl & bl & m & Hh & Hl & Hge). fold e in Hge.
+  cbn [l1 l_buf l_max l_fds] in Hh, Hl.
+  (* what does the loader at rest say about its own buffer? *)
+  specialize (Hrest 1%nat). rewrite qm_S, Hcor in Hrest.
+  destruct (nlen (l_buf l) <? DBUS_MINIMUM_HEADER_SIZE) eqn:Hs.
+  { pose proof (have_ok_hl _ _ _ _ _ _ _ Hh). unfold nlen in Hs. change DBUS_MINIMUM_HEADER_SIZE with 16 in Hs. lia. }
+  assert (H16' : (16 <= length (l_buf l))%nat). { unfold nlen in Hs. change DBUS_MINIMUM_HEADER_SIZE with 16 in Hs. lia. }
+  rewrite (have_message_app (l_max l) (l_buf l) d H16') in Hh.
+  destruct (have_message (l_max l) (l_buf l)) as [r|le' fl' hl' bl' c'] eqn:Hh0; [discriminate|].
+  inversion Hh. subst le' fl' hl' bl'.
+  destruct c'.
+  - (* complete in the old buffer: then the loader at rest would have loaded it or be corrupted *)
+    destruct (load_message le fl hl bl (l_fds l) (l_buf l)) as [m0|r0].
+    + cbn [queue_messages] in Hrest. apply (f_equal l_msgs) in Hrest. cbn [l_msgs] in Hrest. rewrite Hm in Hrest. discriminate.
+    + apply (f_equal l_corrupted) in Hrest. cbn [l_corrupted] in Hrest. congruence.
+  - pose proof (have_ok_inv _ _ _ _ _ _ _ Hh0) as [_ Hc]. unfold nlen in Hc. lia.
+Qed.
+
+Section ValidPrefix.
+  Hypothesis Hlocal : load_local.
+
+  Theorem valid_prefix_feed l d :
+    at_rest l ->
+    l_msgs (feed l (valid_prefix l d) 0) = l_msgs (feed l d 0) /\ l_corrupted (feed l (valid_prefix l d) 0) = false.
+  Proof.
+    intros Hr. pose proof Hr as (Hcor & Hm & Hrest).
+    pose proof (at_rest_eaten l d Hr) as He. cbn zeta in He.
+    unfold feed. rewrite !N.add_0_r. unfold valid_prefix.
+    set (l1 := mkLoader (l_buf l ++ d) (l_corrupted l) (l_reason l) (l_msgs l) (l_fds l) (l_max l)) in *.
+    set (f := S (length (l_buf l1))) in *.
+    set (e := eaten f l1) in *.
+    destruct He as [He|He].
+    - (* nothing eaten *)
+      rewrite He. cbn [Nat.sub firstn]. rewrite app_nil_r, loader_eta, Hrest.
+      destruct (eaten_zero f l1 He) as [E _]. rewrite E. cbn [l1 l_msgs]. split; [reflexivity|exact Hcor].
+    - pose proof (prefix_loads Hlocal f l1 ltac:(unfold f; lia) Hcor) as (H1 & H2 & _). fold e in H1, H2.
+      assert (E : l_buf l ++ firstn (e - length (l_buf l)) d = firstn e (l_buf l1)).
+      { cbn [l1 l_buf]. rewrite firstn_app. rewrite (@firstn_all2 _ e (l_buf l)) by lia. reflexivity. }
+      set (lt := mkLoader (l_buf l ++ firstn (e - length (l_buf l)) d) (l_corrupted l) (l_reason l) (l_msgs l) (l_fds l) (l_max l)).
+      assert (Elt : lt = with_buf l1 (firstn e (l_buf l1))). { unfold lt, with_buf. rewrite E. reflexivity. }
+      assert (Hfuel : queue_messages (S (length (l_buf lt))) lt = queue_messages f lt).
+      { apply qm_fuel; [lia|]. unfold f. cbn [lt l1 l_buf]. rewrite !app_length, firstn_length. lia. }
+      rewrite Hfuel, Elt. split; assumption.
+  Qed.
+End ValidPrefix.
+
+(* ---- bus level ---------------------------------------------------------------- *)
+Section Iso.
+  Context {A S O : Type}.
+  Variable P : ops A S O.
+  Variable cf : cfg.
+
+  (* every loader in the table is at rest (and in particular not corrupted) *)
+  Definition Rest (st : state A S) : Prop := forall x, In x (s_conns st) -> at_rest (c_loader x).
+
+  Lemma update_in' (l : list (conn A)) x z : In z (update_conn l x) -> z = x \/ In z l.
+  Proof.
+    induction l as [|y r IH]; cbn [update_conn]; [intros []|].
+    destruct (c_id y =? c_id x); intros [<-|H]; auto; [right; right; exact H | right; left; reflexivity | destruct (IH H); auto; right; right; assumption].
+  Qed.
+
+  Lemma remove_in (l : list (conn A)) c z : In z (remove_conn l c) -> In z l.
+  Proof. unfold remove_conn. intros H. apply filter_In in H. tauto. Qed.
+
+  Lemma drop_rest (st : state A S) x : Rest st -> Rest (fst (drop P st x)).
+  Proof. intros H. unfold drop. destruct (o_disconnect P _ _ _). cbn [fst]. intros z Hz. apply H. cbn [s_conns] in Hz. eapply remove_in; eassumption. Qed.
+
+  Lemma msg_part_rest (st : state A S) x d : Rest st -> Rest (fst (msg_part P st x d)).
+  Proof.
+    intros H. unfold msg_part. destruct (dispatch_all P _ _ _ _) as [[[k o] act] cl].
+    match goal with |- context [update_conn _ ?y] => set (x' := y) end.
+    assert (Hdrop : Rest (fst (drop P (mkSt (s_now st) (update_conn (s_conns st) x') k) x'))).
+    { unfold drop. destruct (o_disconnect P _ _ _). cbn [fst s_conns]. rewrite remove_update.
+      intros z Hz. apply H. eapply remove_in; eassumption. }
+    destruct (l_corrupted (feed (c_loader x) d 0)) eqn:Hc; cbn [orb].
+    - destruct (drop P _ x'). exact Hdrop.
+    - destruct cl.
+      + destruct (drop P _ x'). exact Hdrop.
+      + cbn [fst]. intros z Hz. cbn [s_conns] in Hz. apply update_in' in Hz. destruct Hz as [->|Hz]; [|apply H; exact Hz].
+        cbn [x' c_loader]. pose proof (feed_pop_at_rest (c_loader x) d Hc) as R. unfold set_msgs in R. rewrite Hc in R. exact R.
+  Qed.
+
+  Lemma auth_part_rest (st : state A S) x a d w : Rest st -> In x (s_conns st) -> Rest (fst (auth_part P st x a d w)).
+  Proof.
+    intros H Hx. unfold auth_part. destruct (o_auth_feed P a d) as [[a' reply] v].
+    destruct (negb w && _); [apply drop_rest; exact H|].
+    destruct v as [| |u].
+    - cbn [fst]. intros z Hz. cbn [s_conns] in Hz. apply update_in' in Hz. destruct Hz as [->|Hz]; [cbn [c_loader]; apply H; exact Hx | apply H; exact Hz].
+    - pose proof (drop_rest st x H) as Hd. destruct (drop P st x). exact Hd.
+    - pose proof (msg_part_rest st (mkConn (c_id x) (c_since x) PMsg (c_loader x) (c_active x)) u H) as Hm. destruct (msg_part P st _ u). exact Hm.
+  Qed.
+
+  Lemma expire_list_in now (l : list (conn A)) k z : In z (fst (fst (expire_list P cf now l k))) -> In z l.
+  Proof.
+    revert k. induction l as [|x r IH]; intros k; cbn [expire_list]; [intros []|].
+    destruct (c_active x).
+    - specialize (IH k). destruct (expire_list P cf now r k) as [[kept k'] o]. cbn [fst] in *. intros [<-|Hz]; [left; reflexivity|right; apply IH; exact Hz].
+    - destruct (auth_timeout cf <=? now - c_since x).
+      + destruct (o_disconnect P k (c_id x) false) as [k1 o1]. specialize (IH k1). destruct (expire_list P cf now r k1) as [[kept k2] o2]. cbn [fst] in *. intros Hz. right. apply IH. exact Hz.
+      + cbn [fst]. auto.
+  Qed.
+
+  Lemma expire_rest (st : state A S) : Rest st -> Rest (fst (expire P cf st)).
+  Proof.
+    intros H. unfold expire. pose proof (expire_list_in (s_now st) (s_conns st) (s_core st)) as Hin.
+    destruct (expire_list P cf (s_now st) (s_conns st) (s_core st)) as [[kept k] o]. cbn [fst] in *. intros z Hz. apply H. apply Hin. exact Hz.
+  Qed.
+
+  Theorem step_rest (st : state A S) e : Rest st -> Rest (fst (step P cf st e)).
+  Proof.
+    intros H. destruct e as [c|c d w|c|d]; cbn [step].
+    - unfold accept. destruct (negb (accept_enabled cf st)); [exact H|]. destruct (find_conn (s_conns st) c); [exact H|].
+      apply expire_rest. intros z Hz. cbn [s_conns] in Hz. apply in_app_iff in Hz. destruct Hz as [Hz|[<-|[]]]; [apply H; exact Hz|].
+      cbn [c_loader]. apply loader_new_at_rest.
+    - unfold read. destruct (find_conn (s_conns st) c) as [x|] eqn:Hf; [|exact H].
+      pose proof (find_conn_in _ _ _ Hf) as Hx.
+      destruct (c_phase x) as [|a|].
+      + destruct d as [|b rest]; [exact H|]. destruct (b =? 0); [apply auth_part_rest; assumption|apply drop_rest; exact H].
+      + apply auth_part_rest; assumption.
+      + apply msg_part_rest; exact H.
+    - destruct (find_conn (s_conns st) c); [apply drop_rest; exact H|exact H].
+    - apply expire_rest. exact H.
+  Qed.
+
+  Theorem run_rest (st : state A S) h : Rest st -> Rest (fst (run P cf st h)).
+  Proof.
+    revert st. induction h as [|e r IH]; intros st H; cbn [run]; [exact H|].
+    pose proof (step_rest st e H) as H1. destruct (step P cf st e) as [st1 o1]. specialize (IH st1 H1). destruct (run P cf st1 r). exact IH.
+  Qed.
+
+  Lemma Rest_init (k : S) : Rest (init k : state A S).
+  Proof. intros x []. Qed.
+
+  (* ---- once out of the table, a connection's remaining input changes nothing ---- *)
+  Definition strip (c : N) (h : list event) : list event := filter (fun e => negb (about c e)) h.
+  Definition no_accept (c : N) (h : list event) : Prop := forall e, In e h -> e <> EAccept c.
+
+  Lemma step_keeps_absent (st : state A S) c e : find_conn (s_conns st) c = None -> e <> EAccept c -> find_conn (s_conns (fst (step P cf st e))) c = None.
+  Proof.
+    intros Hn Hne.
+    assert (Hsubset : forall st' : state A S, (forall z, In z (s_conns st') -> In z (s_conns st) \/ c_id z <> c) -> find_conn (s_conns st') c = None).
+    { intros st' Hs. unfold find_conn. destruct (find (fun x => c_id x =? c) (s_conns st')) as [z|] eqn:E; [|reflexivity].
+      apply find_some in E. destruct E as [Hin Hid]. apply N.eqb_eq in Hid. destruct (Hs z Hin) as [Hz|Hz]; [|contradiction].
+      exfalso. unfold find_conn in Hn. pose proof (find_none _ _ Hn z Hz) as Hf. cbn in Hf. rewrite Hid, N.eqb_refl in Hf. discriminate. }
+    apply Hsubset. clear Hsubset.
+    assert (Hdrop : forall (s0 : state A S) y, (forall z, In z (s_conns s0) -> In z (s_conns st) \/ c_id z <> c) -> forall z, In z (s_conns (fst (drop P s0 y))) -> In z (s_conns st) \/ c_id z <> c).
+    { intros s0 y Hs z Hz. unfold drop in Hz. destruct (o_disconnect P _ _ _). cbn [fst s_conns] in Hz. apply remove_in in Hz. apply Hs. exact Hz. }
+    assert (Hmsg : forall x d, c_id x <> c -> forall z, In z (s_conns (fst (msg_part P st x d))) -> In z (s_conns st) \/ c_id z <> c).
+    { intros x d Hx z Hz. unfold msg_part in Hz. destruct (dispatch_all P _ _ _ _) as [[[k o] act] cl].
+      match type of Hz with context [update_conn _ ?y] => set (x' := y) in * end.
+      assert (Hup : forall z, In z (update_conn (s_conns st) x') -> In z (s_conns st) \/ c_id z <> c).
+      { intros z0 Hz0. apply update_in' in Hz0. destruct Hz0 as [->|Hz0]; [right; exact Hx|left; exact Hz0]. }
+      destruct (l_corrupted _ || cl).
+      - pose proof (Hdrop (mkSt (s_now st) (update_conn (s_conns st) x') k) x' Hup z) as Hd. destruct (drop P _ x'). apply Hd. exact Hz.
+      - apply Hup. exact Hz. }
+    assert (Hauth : forall x a d w, c_id x <> c -> forall z, In z (s_conns (fst (auth_part P st x a d w))) -> In z (s_conns st) \/ c_id z <> c).
+    { intros x a d w Hx z Hz. unfold auth_part in Hz. destruct (o_auth_feed P a d) as [[a' reply] v].
+      destruct (negb w && _); [apply (Hdrop st x (fun z H => or_introl H) z Hz)|].
+      destruct v as [| |u].
+      - cbn [fst s_conns] in Hz. apply update_in' in Hz. destruct Hz as [->|Hz]; [right; exact Hx|left; exact Hz].
+      - pose proof (Hdrop st x (fun z H => or_introl H) z) as Hd. destruct (drop P st x). apply Hd. exact Hz.
+      - pose proof (Hmsg (mkConn (c_id x) (c_since x) PMsg (c_loader x) (c_active x)) u Hx z) as Hm. destruct (msg_part P st _ u). apply Hm. exact Hz. }
+    destruct e as [c'|c' d w|c'|d]; cbn [step].
+    - unfold accept. destruct (negb (accept_enabled cf st)); [auto|]. destruct (find_conn (s_conns st) c'); [auto|].
+      intros z Hz. unfold expire in Hz.
+      pose proof (expire_list_in (s_now st) (s_conns st ++ [mkConn c' (s_now st) PCred (loader_for cf) false]) (s_core st) z) as Hin.
+      cbn [s_now s_conns s_core] in Hz. destruct (expire_list P cf _ _ _) as [[kept k] o]. cbn [fst s_conns] in *.
+      apply Hin in Hz. apply in_app_iff in Hz. destruct Hz as [Hz|[<-|[]]]; [left; exact Hz|right]. cbn [c_id]. intros ->. apply Hne. reflexivity.
+    - unfold read. destruct (find_conn (s_conns st) c') as [x|] eqn:Hf; [|auto].
+      assert (Hx : c_id x <> c). { rewrite (find_conn_id _ _ _ Hf). intros ->. congruence. }
+      destruct (c_phase x) as [|a|].
+      + destruct d as [|b rest]; [auto|]. destruct (b =? 0); [apply Hauth; exact Hx | apply (Hdrop st x (fun z H => or_introl H))].
+      + apply Hauth; exact Hx.
+      + apply Hmsg; exact Hx.
+    - destruct (find_conn (s_conns st) c'); [apply (Hdrop st _ (fun z H => or_introl H))|auto].
+    - intros z Hz. unfold expire in Hz. pose proof (expire_list_in (s_now st + d) (s_conns st) (s_core st) z) as Hin.
+      cbn [s_now s_conns s_core] in Hz. destruct (expire_list P cf _ _ _) as [[kept k] o]. cbn [fst s_conns] in *. left. apply Hin. exact Hz.
+  Qed.
+
+  (* C10: "nothing of the invalid message (nor anything after it) is dispatched" — bus level:
+     whatever a connection that has been dropped still sends is ignored *)
+  Theorem after_gone (st : state A S) c h :
+    find_conn (s_conns st) c = None -> no_accept c h -> run P cf st h = run P cf st (strip c h).
+  Proof.
+    revert st. induction h as [|e r IH]; intros st Hn Hna; [reflexivity|].
+    assert (Hna' : no_accept c r) by (intros e' He'; apply Hna; right; exact He').
+    unfold strip in *. cbn [filter]. destruct (about c e) eqn:Ha; cbn [negb].
+    - cbn [run]. rewrite (absent_noop P cf st c e Hn Ha). rewrite (IH st Hn Hna'). destruct (run P cf st (filter _ r)). reflexivity.
+    - cbn [run]. pose proof (step_keeps_absent st c e Hn (Hna e (or_introl eq_refl))) as Hn'.
+      destruct (step P cf st e) as [st1 o1]. cbn [fst] in Hn'. rewrite (IH st1 Hn' Hna'). reflexivity.
+  Qed.
+
+  (* ---- the step depends on the bytes only through the loader's outcome ---------- *)
+  Theorem same_outcome_same_step (st : state A S) c x d1 d2 w1 w2 :
+    find_conn (s_conns st) c = Some x -> c_phase x = PMsg ->
+    outcome (feed (c_loader x) d1 0) = outcome (feed (c_loader x) d2 0) ->
+    l_corrupted (feed (c_loader x) d1 0) = true ->
+    step P cf st (ERead c d1 w1) = step P cf st (ERead c d2 w2).
+  Proof.
+    intros Hf Hp Ho Hc. unfold outcome in Ho. inversion Ho as [[Hc2 Hm]]. rewrite Hc in Hc2. symmetry in Hc2.
+    destruct (invalid_disconnects_sender_only P cf st c d1 w1 x Hf Hp Hc) as (k1 & o1 & act & cl & k2 & o2 & Hd1 & Ho1 & E1).
+    destruct (invalid_disconnects_sender_only P cf st c d2 w2 x Hf Hp Hc2) as (k1' & o1' & act' & cl' & k2' & o2' & Hd2 & Ho2 & E2).
+    rewrite <- Hm in Hd2. rewrite Hd1 in Hd2. inversion Hd2. subst k1' o1' act' cl'. rewrite Ho1 in Ho2. inversion Ho2. subst k2' o2'.
+    rewrite E1, E2. reflexivity.
+  Qed.
+
+  (* ---- isolation ------------------------------------------------------------------ *)
+  Section WithLocality.
+    Hypothesis Hlocal : load_local.
+
+    (* one corrupting read = the read of its valid prefix, then EOF *)
+    Lemma corrupt_read_split (st : state A S) c d w x :
+      find_conn (s_conns st) c = Some x -> c_phase x = PMsg -> at_rest (c_loader x) ->
+      l_corrupted (feed (c_loader x) d 0) = true ->
+      run P cf st [ERead c d w] = run P cf st [ERead c (valid_prefix (c_loader x) d) w; EEof c].
+    Proof.
+      intros Hf Hp Hr Hc. pose proof (find_conn_id _ _ _ Hf) as Hid.
+      destruct (invalid_disconnects_sender_only P cf st c d w x Hf Hp Hc) as (k1 & o1 & act & cl & k2 & o2 & Hd & Ho & E).
+      destruct (valid_prefix_feed Hlocal (c_loader x) d Hr) as [Hvm Hvc].
+      cbn [run]. rewrite E.
+      (* the sanitised read *)
+      cbn [step]. unfold read at 1. rewrite Hf, Hp. unfold msg_part. rewrite Hid, Hvm, Hd, Hvc. cbn [orb].
+      match goal with |- context [update_conn _ ?y] => set (x' := y) end.
+      destruct cl.
+      - (* the core closed it already: EOF finds nothing *)
+        unfold drop. cbn [s_core c_id c_active s_now s_conns x']. rewrite Ho.
+        pose proof (remove_update (s_conns st) x') as R. cbn [x' c_id] in R. rewrite R.
+        cbn [step s_conns]. rewrite find_remove_same. cbn [app]. rewrite ?app_nil_r, <- ?app_assoc. reflexivity.
+      - (* still there: EOF drops it *)
+        cbn [step s_conns]. assert (Hf' : find_conn (update_conn (s_conns st) x') c = Some x').
+        { pose proof (find_update_same (s_conns st) x' x) as F. cbn [x' c_id] in F. apply F. exact Hf. }
+        rewrite Hf'. unfold drop. cbn [s_core c_id c_active s_now s_conns x']. rewrite Ho.
+        pose proof (remove_update (s_conns st) x') as R. cbn [x' c_id] in R. rewrite R.
+        rewrite !app_nil_r. reflexivity.
+    Qed.
+
+    (* C10_isolation on states: *)
+    Theorem isolation_from (st : state A S) c d w x h2 :
+      Rest st -> find_conn (s_conns st) c = Some x -> c_phase x = PMsg ->
+      l_corrupted (feed (c_loader x) d 0) = true -> no_accept c h2 ->
+      run P cf st (ERead c d w :: h2) = run P cf st (ERead c (valid_prefix (c_loader x) d) w :: EEof c :: strip c h2).
+    Proof.
+      intros HR Hf Hp Hc Hna.
+      pose proof (corrupt_read_split st c d w x Hf Hp (HR x (find_conn_in _ _ _ Hf)) Hc) as Hs.
+      change (ERead c d w :: h2) with ([ERead c d w] ++ h2).
+      change (ERead c (valid_prefix (c_loader x) d) w :: EEof c :: strip c h2) with ([ERead c (valid_prefix (c_loader x) d) w; EEof c] ++ strip c h2).
+      rewrite !run_app. rewrite <- Hs.
+      destruct (invalid_sender_gone P cf st c d w x Hf Hp Hc) as (Hgone & _).
+      cbn [run]. destruct (step P cf st (ERead c d w)) as [st1 o1]. cbn [fst] in Hgone. rewrite app_nil_r.
+      rewrite (after_gone st1 c h2 Hgone Hna). reflexivity.
+    Qed.
+
+    (* C10_isolation: every history from the initial state; the hostile connection c
+       may have done anything before (h1), other connections anything before and after *)
+    Theorem isolation (k : S) h1 c d w x h2 :
+      let st := fst (run P cf (init k) h1) in
+      find_conn (s_conns st) c = Some x -> c_phase x = PMsg ->
+      l_corrupted (feed (c_loader x) d 0) = true -> no_accept c h2 ->
+      run P cf (init k) (h1 ++ ERead c d w :: h2) =
+      run P cf (init k) (h1 ++ ERead c (valid_prefix (c_loader x) d) w :: EEof c :: strip c h2).
+    Proof.
+      intros st Hf Hp Hc Hna. rewrite !run_app.
+      pose proof (run_rest (init k) h1 (Rest_init k)) as HR. fold st in HR.
+      destruct (run P cf (init k) h1) as [st0 o0] eqn:E. cbn [fst] in st. subst st.
+      rewrite (isolation_from st0 c d w x h2 HR Hf Hp Hc Hna). reflexivity.
+    Qed.
+  End WithLocality.
+
+  (* after the step that found c's stream invalid, nothing c sends matters any more *)
+  Theorem nothing_after_corruption (st : state A S) c d w x h2 :
+    find_conn (s_conns st) c = Some x -> c_phase x = PMsg -> l_corrupted (feed (c_loader x) d 0) = true -> no_accept c h2 ->
+    let st' := fst (step P cf st (ERead c d w)) in
+    run P cf st' h2 = run P cf st' (strip c h2).
+  Proof.
+    intros Hf Hp Hc Hna st'. destruct (invalid_sender_gone P cf st c d w x Hf Hp Hc) as (Hgone & _).
+    apply after_gone; assumption.
+  Qed.
+End Iso.
